@@ -25,6 +25,9 @@ ASSUMPTIONS = ['the encoder fcverif/fcsgen.py (int.to_bytes/struct, no NumPy) wr
 CHUNK = 32
 
 WIDTHS = (8, 16, 24, 32, 40, 48, 56, 64)
+# the standard fixes no order of the segments in the file: DATA first, supplemental TEXT first, ANALYSIS first
+SEG_ORDERS = [['data', 'text', 'stext', 'analysis'], ['stext', 'analysis', 'text', 'data'], ['analysis', 'data', 'stext', 'text'],
+              ['text', 'analysis', 'data', 'stext']]
 BYTEORDS = ('4,3,2,1', '1,2,3,4', '2,1', '1,2')
 RKINDS = ('full', 'smaller', 'npot')
 
@@ -105,6 +108,10 @@ def make_layout(c):
     if c.get('analysis'):
         lay['analysis'] = [('AN1', 'v1')]
         lay['analysis_offsets'] = c['analysis']
+    if c.get('seg_order'):
+        lay['seg_order'] = list(c['seg_order'])
+        if not lay.get('stext'):
+            lay.pop('stext_pos', None)
     for k in ('mode', 'bits_override', 'byteord_override', 'datatype_override'):
         pass
     if 'refuse' in c:
@@ -191,7 +198,8 @@ def cases(tier, seed):
             ('end', ['last', 'onepast']),
             ('offsets', ['header', 'text']),
             ('stext', [None, 'after', 'before']),
-            ('analysis', [None, 'header', 'text'])]
+            ('analysis', [None, 'header', 'text']),
+            ('seg_order', [None] + SEG_ORDERS)]
     k = 2 if tier == 'quick' else 3
     bases = [dict(kind='int', widths=[16], byteord='4,3,2,1', rk=['full']),
              dict(kind='int', widths=[8, 24], byteord='1,2,3,4', rk=['npot', 'full']),
